@@ -127,7 +127,10 @@ func parseHistJSON(bs []byte) (rows [][2]uint64, err error) {
 }
 
 // parseHistText reads the rows "[lo, hi] count pct bar" of the text reporter.
+var his []string // upper labels of the rows last parsed by parseHistText
+
 func parseHistText(s string) (rows [][2]uint64, err error) {
+	his = nil
 	lines := strings.Split(strings.TrimRight(s, "\n"), "\n")
 	if len(lines) == 0 || !strings.HasPrefix(lines[0], "Bucket") {
 		return nil, fmt.Errorf("no header: %q", s)
@@ -145,6 +148,7 @@ func parseHistText(s string) (rows [][2]uint64, err error) {
 		if err != nil {
 			return nil, err
 		}
+		his = append(his, strings.TrimSpace(ln[comma+1:end]))
 		f := strings.Fields(ln[end+1:])
 		if len(f) < 2 {
 			return nil, fmt.Errorf("bad row %q", ln)
@@ -156,6 +160,24 @@ func parseHistText(s string) (rows [][2]uint64, err error) {
 		rows = append(rows, [2]uint64{uint64(lo), c})
 	}
 	return rows, nil
+}
+
+// hiLabels renders the upper labels as BigNat nanoseconds, the open last bucket as the empty list's marker [-1].
+func hiLabels() [][]int {
+	out := [][]int{}
+	for _, h := range his {
+		if h == "+Inf" {
+			out = append(out, []int{-1})
+			continue
+		}
+		d, err := time.ParseDuration(h)
+		if err != nil || d < 0 {
+			out = append(out, []int{-2})
+			continue
+		}
+		out = append(out, Big(uint64(d)))
+	}
+	return out
 }
 
 func rowsKV(rows [][2]uint64) [][]any {
@@ -206,7 +228,7 @@ func (d *c12Drv) render(h *vegeta.Histogram) {
 			d.tr.Emit("Panic", KV{"what": "HistogramReporter output", "value": err.Error()})
 			return
 		}
-		d.tr.Emit("Render", KV{"kind": "text", "rows": rowsKV(rows)})
+		d.tr.Emit("Render", KV{"kind": "text", "rows": rowsKV(rows), "his": hiLabels()})
 	})
 }
 
